@@ -20,7 +20,7 @@ def tlc_phase(maxn):
     """Run (or reuse) the two TLC passes for MaxN=maxn: (1) all design invariants, (2) successor-table
     dump. Both depend only on the specification, so they are cached by the hash of the spec files."""
     key = vlib.sha(vlib.spec_hash(*SPEC_FILES), maxn, INVS)
-    d = os.path.join(vlib.BUILD, "tlc", "qsim-" + key)
+    d = vlib.cache_dir("qsim", key)
     meta = os.path.join(d, "meta.json")
     dump = os.path.join(d, "dump.ndjson")
     if os.path.exists(meta) and os.path.exists(dump):
@@ -55,7 +55,7 @@ def tlc_wide(n):
     one-step probe (TLC evaluates invariants UnitNorm, ProjOK and dumps the probe tables)."""
     files = ["Ring.tla", "QSim.tla", "MCQSimWide.tla"]
     key = vlib.sha(vlib.spec_hash(*files), "wide", n)
-    d = os.path.join(vlib.BUILD, "tlc", "qsimwide-" + key)
+    d = vlib.cache_dir("qsimwide", key)
     meta = os.path.join(d, "meta.json")
     dump = os.path.join(d, "dump.ndjson")
     if os.path.exists(meta) and os.path.exists(dump):
@@ -81,7 +81,12 @@ def replay(dump, log=True):
     tmp = vlib.scratch("qsimrep")
     try:
         out = os.path.join(tmp, "out.json")
+        if not os.path.exists(dump):
+            raise vlib.Infra("state-graph dump %s disappeared before the replay" % dump)
         p = vlib.sh([exe, dump, out, "40", "log" if log else "nolog"], timeout=3000)
+        if p.returncode == 2:
+            # exit status 2 is the replay harness's own usage / input error, not a crash of the implementation
+            raise vlib.Infra("qsim_replay: %s" % p.stderr.decode(errors="replace")[-500:])
         if p.returncode != 0 or not os.path.exists(out):
             # the implementation crashed under replay: no result file to attribute, so report it for every
             # property served by this harness
